@@ -176,6 +176,16 @@ def run(ctx):
             sorted_acc = check_consumer(ctx, F, parent, nm, cfn)
             if sorted_acc:
                 check_sort_key(ctx, F, cb, nm, cfn)
+    # what is merged in entry order must be *visited* in an order the file determines: no iteration over a hash collection
+    # (its order changes from run to run) in the reader's merging code
+    hashed = []
+    for x in F.with_closures(F.fn("Reader::read")):
+        for c in x.calls:
+            full = (c.full or "") + " " + (c.fn or "")
+            if re.search(r"(iter|into_iter|par_iter|into_par_iter|keys|values|values_mut|iter_mut|drain|par_iter_mut)$", c.fn or "") and re.search(r"Hash(Map|Set)<", full + " " + (x.lty(op_place(c.args[0])["l"]) if c.args and op_place(c.args[0]) is not None else "")):
+                hashed.append("%s line %d: %s" % (F.canon_of(x), c.ln, (c.fn or "").rsplit("::", 1)[-1]))
+    ctx.ob(R, "no-hash-order-iteration|Reader::read", not hashed, "Reader::read iterates no HashMap / HashSet", F.fn("Reader::read").where(),
+           what="Reader::read iterates a hash collection (%s): its order differs from run to run, so which of two entries leading to the same object wins depends on the run (and on nothing in the file)" % hashed)
     ctx.extra["parallel_closures"] = [F.canon_of(F.bodies[x[2]]) for x in par]
     ctx.sample({"parallel closure": ctx.extra["parallel_closures"], "configurations": ["default", "nodefault"]})
 
